@@ -1,3 +1,5 @@
+import XdsVerif.Model.DecodeCE
+import XdsVerif.Model.Decode
 import XdsVerif.Model.Handlers
 import XdsVerif.Model.Seq
 import XdsVerif.Model.Resolve
